@@ -248,6 +248,9 @@ pub fn gen_scenario(seed: u64, cfg: &GenCfg) -> Scenario {
     // one scenario in 300: a long burst of distinct points on a graph with a LARGE
     // table (13-14 edges): per-sampler bounded caches and their eviction
     let big_burst = rng.chance(1, 300);
+    // one scenario in 2500: more than 2^16 calls on one sampler of an ordinary graph
+    // (16-bit counters / generation numbers / caches that fill up late)
+    let long_burst = !big_burst && rng.chance(1, 2500);
     let (spec, s) = if big_burst {
         let g = workload::big_accepted_graph(&mut rng, if cfg.thorough { 14 } else { 13 });
         match sampler::build(&g) {
@@ -259,7 +262,7 @@ pub fn gen_scenario(seed: u64, cfg: &GenCfg) -> Scenario {
     };
     let main = target(spec, s);
     let c18 = cfg.flavor == Flavor::C18;
-    let alt: Option<Target> = if !big_burst && rng.chance(1, if c18 { 3 } else { 4 }) { make_alt(&mut rng, &main.spec, max_e, max_l) } else { None };
+    let alt: Option<Target> = if !big_burst && !long_burst && rng.chance(1, if c18 { 3 } else { 4 }) { make_alt(&mut rng, &main.spec, max_e, max_l) } else { None };
 
     let kind = rng.below(100);
     let mut clients: Vec<Vec<Op>> = Vec::new();
@@ -277,7 +280,14 @@ pub fn gen_scenario(seed: u64, cfg: &GenCfg) -> Scenario {
         }
     };
 
-    if big_burst {
+    if long_burst {
+        clients.push(vec![Op::Burst {
+            seed: rng.next(),
+            n: 66_000 + rng.below(5_000),
+            ed: workload::gen_edge_data(&mut rng, &main.spec),
+            st: Settings::plain(),
+        }]);
+    } else if big_burst {
         let n = if cfg.thorough { 4000 } else { 1500 };
         clients.push(vec![Op::Burst {
             seed: rng.next(),
